@@ -99,4 +99,68 @@ theorem nulledKvs_keys : ∀ (xs ys : List (String × Json)), nulledKvs xs ys = 
     simp only [nulledKvs, Bool.and_eq_true, beq_iff_eq] at h
     simp [h.1.1, nulledKvs_keys xs ys h.2]
 
+mutual
+  /-- the nulling order is transitive: nulling more of an already nulled response stays below the fault-free one -/
+  theorem nulled_trans : ∀ (a b c : Json), nulled a b = true → nulled b c = true → nulled a c = true
+    | .null, _, _, _, _ => by simp [nulled]
+    | .bool x, b, c, h1, h2 => by
+      cases b <;> simp [nulled, Json.beq] at h1
+      subst h1
+      exact h2
+    | .num x, b, c, h1, h2 => by
+      cases b <;> simp [nulled, Json.beq] at h1
+      subst h1
+      exact h2
+    | .str x, b, c, h1, h2 => by
+      cases b <;> simp [nulled, Json.beq] at h1
+      subst h1
+      exact h2
+    | .arr xs, b, c, h1, h2 => by
+      cases b with
+      | arr ys =>
+        cases c with
+        | arr zs =>
+          simp only [nulled] at h1 h2 ⊢
+          exact nulledList_trans xs ys zs h1 h2
+        | _ => simp [nulled, Json.beq] at h2
+      | _ => simp [nulled, Json.beq] at h1
+    | .obj xs, b, c, h1, h2 => by
+      cases b with
+      | obj ys =>
+        cases c with
+        | obj zs =>
+          simp only [nulled] at h1 h2 ⊢
+          exact nulledKvs_trans xs ys zs h1 h2
+        | _ => simp [nulled, Json.beq] at h2
+      | _ => simp [nulled, Json.beq] at h1
+  theorem nulledList_trans : ∀ (xs ys zs : List Json), nulledList xs ys = true → nulledList ys zs = true → nulledList xs zs = true
+    | [], ys, zs, h1, h2 => by
+      cases ys <;> simp [nulledList] at h1
+      exact h2
+    | x :: xs, ys, zs, h1, h2 => by
+      cases ys with
+      | nil => simp [nulledList] at h1
+      | cons y ys =>
+        cases zs with
+        | nil => simp [nulledList] at h2
+        | cons z zs =>
+          simp only [nulledList, Bool.and_eq_true] at h1 h2 ⊢
+          exact ⟨nulled_trans x y z h1.1 h2.1, nulledList_trans xs ys zs h1.2 h2.2⟩
+  theorem nulledKvs_trans : ∀ (xs ys zs : List (String × Json)), nulledKvs xs ys = true → nulledKvs ys zs = true → nulledKvs xs zs = true
+    | [], ys, zs, h1, h2 => by
+      cases ys <;> simp [nulledKvs] at h1
+      exact h2
+    | (k, x) :: xs, ys, zs, h1, h2 => by
+      cases ys with
+      | nil => simp [nulledKvs] at h1
+      | cons y ys =>
+        cases zs with
+        | nil => obtain ⟨l, y⟩ := y; simp [nulledKvs] at h2
+        | cons z zs =>
+          obtain ⟨l, y⟩ := y
+          obtain ⟨m, z⟩ := z
+          simp only [nulledKvs, Bool.and_eq_true, beq_iff_eq] at h1 h2 ⊢
+          exact ⟨⟨h1.1.1.trans h2.1.1, nulled_trans x y z h1.1.2 h2.1.2⟩, nulledKvs_trans xs ys zs h1.2 h2.2⟩
+end
+
 end GqlVerif.Props.C07
